@@ -5,11 +5,15 @@ package endpoint
 // Contracts for the deductive verifier in /verif (govc); comments only.
 // flagInt/flagStr/fmtEndpoint/normWeight: /verif/specs/endpoint.gvs (property C18).
 //
+// String stays trusted for its callers (fmt.Sprintf is not modelled: the result is the uninterpreted
+// fmtEndpoint of the four fields); checked here (argsonly) are the arguments handed to Sprintf: protocol word, host,
+// port and timeout, in that order.
 //@ func (Endpoint).String
 //@   trusted
+//@   argsonly
 //@   pure
 //@   ensures [C18] result == fmtEndpoint(e.Proto, e.Host, e.Port, e.Timeout)
-//@   safety [C18]
+//@   site Sprintf#0 assert [C18] len($1) == 4 && $1[0] == ifaceof(e.Proto, "string") && $1[1] == ifaceof(e.Host, "string") && $1[2] == ifaceof(e.Port, "int32") && $1[3] == ifaceof(e.Timeout, "int32")
 //
 //@ func Parse
 //@   witness s = endpoint
